@@ -180,6 +180,7 @@ pub struct CaseStats {
     pub rotations: u32,
     pub stall_windows: u32,
     pub worker_steps: u32,
+    pub jumps_inside_operations: u32,
     pub iterator_steps_after_write: u32,
     pub same_key_bursts: u32,
     pub reads_in_stall_after_delete: u32,
